@@ -1676,3 +1676,251 @@ class _SyncRstScoreboard(CrossScoreboard):
             l[6] = 0
             o[1] = 0
         return CrossScoreboard.observe(self, tuple(l), o)
+
+
+# ---------------------------------------------------------------------------------------------------------------
+# USERS of the crossings: which side lives in which domain (round 5: C05-r5m2 class)
+
+def domain_audit(netlist, module):
+    """Structural oracle on the lowered fragment: a register written by the sync logic of domain A may be read by
+    the sync logic of domain B != A only (a) by the first flop of a MultiReg whose input it is, or (b) if it is a
+    storage word of a Migen AsyncFIFO (protected by the Gray-pointer protocol).  Reads are followed through the
+    combinational logic.  Returns a list of human-readable offences (empty on a correct design)."""
+    from migen.fhdl.tools import list_targets, list_signals
+    from migen.genlib import fifo as mfifo
+    from migen.fhdl.specials import Memory
+    dom = {}
+    offences = []
+    for cd, stmts in netlist.sync.items():
+        for s in list_targets(stmts):
+            if s in dom and dom[s] != cd:
+                offences.append("signal %r is written by the sync logic of both %s and %s" % (s, dom[s], cd))
+            dom[s] = cd
+    # combinational dependencies
+    dep = {}
+    for st in netlist.comb:
+        tg = list_targets(st)
+        ins = list_signals(st) - tg
+        for t in tg:
+            dep.setdefault(t, set()).update(ins)
+    memo = {}
+
+    def sources(sig):
+        """registers a signal depends on through comb logic"""
+        if sig in memo:
+            return memo[sig]
+        memo[sig] = set()           # cut combinational cycles
+        out = set()
+        if sig in dom:
+            out.add(sig)
+        for d in dep.get(sig, ()):
+            out |= sources(d)
+        memo[sig] = out
+        return out
+    # whitelist
+    first_flop_src = {}
+    for sid, (sp, impl) in getattr(netlist, "mr", {}).items():
+        first_flop_src[impl.regs[0]] = list_signals(impl.i) if not isinstance(impl.i, Signal) else {impl.i}
+    storage = set()
+    todo, seen = [module], set()
+    while todo:
+        m = todo.pop()
+        if id(m) in seen:
+            continue
+        seen.add(id(m))
+        todo += [sub for _, sub in getattr(m, "_submodules", [])]
+        if isinstance(m, mfifo.AsyncFIFO):
+            for sp in m._fragment.specials:
+                if isinstance(sp, Memory) and sp in netlist.ev.replaced_memories:
+                    storage |= set(netlist.ev.replaced_memories[sp])
+    reported = set()
+    for cd, stmts in netlist.sync.items():
+        for st in stmts:
+            tg = list_targets(st)
+            reads = list_signals(st) - tg
+            for r in reads:
+                for src in sources(r):
+                    if dom[src] == cd or src in storage:
+                        continue
+                    if tg and all(t in first_flop_src and any(src in sources(i) for i in first_flop_src[t]) for t in tg):
+                        continue
+                    key = (id(src), cd)
+                    if key not in reported:
+                        reported.add(key)
+                        offences.append("register %r (domain %s) is read by sync logic of domain %s (targets %s) "
+                                        "without a synchroniser" % (src, dom[src], cd,
+                                                                   ", ".join(sorted(repr(t) for t in tg))[:120]))
+    return offences, dom, sources
+
+
+class _HarnessPHY(Module):
+    """RS232PHY-like stand-in whose registers live in ITS OWN "sys" domain (to be renamed by the user of the PHY):
+    received bytes are shown for one cycle of the PHY clock without back-pressure, transmitted bytes are accepted
+    with a one-cycle ready pulse and logged."""
+    def __init__(self):
+        from litex.soc.interconnect import stream
+        self.sink = stream.Endpoint([("data", 8)])
+        self.source = stream.Endpoint([("data", 8)])
+        self.rx_valid, self.rx_data, self.tx_take = Signal(), Signal(8), Signal()
+        self.tx_valid, self.tx_data = Signal(), Signal(8)
+        self.sync += [
+            self.source.valid.eq(self.rx_valid),
+            self.source.data.eq(self.rx_data),
+            self.sink.ready.eq(0),
+            If(self.sink.valid & ~self.sink.ready & self.tx_take, self.sink.ready.eq(1)),
+            self.tx_valid.eq(self.sink.valid & self.sink.ready),
+            If(self.sink.valid & self.sink.ready, self.tx_data.eq(self.sink.data)),
+        ]
+
+
+class UartBoneInst:
+    """uart.UARTBone(phy, clk_freq, cd="uart") built through its real constructor around `_HarnessPHY`; the two
+    clocks are driven with unrelated edge schedules.
+    letter : (t_sys, t_cd, resolution mask (all synchronisers), rx_valid, rx_data, tx_take, wishbone dat_r)
+             rx_valid/rx_data/tx_take are inputs of the cd domain (the generator changes them only after a cd edge),
+             dat_r of the sys domain; the bus acknowledges combinationally.
+    outputs: [wb.stb&cyc, wb.we, wb.adr, wb.dat_w, phy tx_valid, phy tx_data]"""
+    FMT = "t_sys, t_cd, resolution mask, rx_valid, rx_data, tx_take, wishbone dat_r"
+    lean_open = None
+
+    def __init__(self, name, cd="uart"):
+        from litex.soc.cores import uart
+        self.name, self.cd = name, cd
+        self.phy = _HarnessPHY()
+        self.module = m = uart.UARTBone(self.phy, clk_freq=1e6, cd=cd)
+        self.netlist = CdcNetlist(m, clocks=tuple(dict.fromkeys(("sys", cd))))
+        self.netlist.set(m.wishbone.ack, 1)
+        self.qual = [None] * 6
+        self._clk = None
+
+    def clocks(self, letter):
+        ts, tc, mask = letter[:3]
+        cds = tuple(dict.fromkeys(c for c, t in (("sys", ts), (self.cd, tc)) if t))
+        return Tick((cds, {sid: mask for sid in self.netlist.mr}))
+
+    def apply(self, letter):
+        n, p, w = self.netlist, self.phy, self.module.wishbone
+        n.set(p.rx_valid, letter[3])
+        n.set(p.rx_data, letter[4])
+        n.set(p.tx_take, letter[5])
+        n.set(w.dat_r, letter[6])
+        n.set(w.ack, 1)
+        n.settle()
+
+    def sample(self):
+        n, p, w = self.netlist, self.phy, self.module.wishbone
+        return [n.getu(w.stb) & n.getu(w.cyc), n.getu(w.we), n.getu(w.adr), n.getu(w.dat_w),
+                n.getu(p.tx_valid), n.getu(p.tx_data)]
+
+    def nontrivial(self, letter, outs):
+        return bool(outs[0] or outs[4] or letter[3])
+
+    def gen(self, rng, t):
+        from litex.soc.cores import uart
+        if t == 0 or self._clk is None:
+            self._clk = ClockPattern(rng, None)
+            self._bytes, self._gap, self._cur = [], 0, (0, 0)
+            self._take, self._datr = 0, rng.getrandbits(32)
+        ts, tc = self._clk.next(rng, t)
+        if self.cd == "sys":
+            ts = tc = 1
+        letter = (ts, tc, rng.choice((0, 0xff, rng.randint(0, 0xff))), self._cur[0], self._cur[1], self._take,
+                  self._datr)
+        if tc:                                  # the PHY-side environment moves at cd edges
+            if not self._bytes and self._gap <= 0 and rng.random() < 0.05:
+                be = lambda v: [(v >> (8 * i)) & 0xff for i in (3, 2, 1, 0)]
+                n = rng.randint(1, 2)
+                adr = rng.getrandbits(24)
+                if rng.random() < 0.5:
+                    self._bytes = [uart.CMD_WRITE_BURST_INCR, n] + be(adr) + sum((be(rng.getrandbits(32)) for _ in range(n)), [])
+                else:
+                    self._bytes = [uart.CMD_READ_BURST_INCR, n] + be(adr)
+                self._gap = 0
+            if self._bytes and self._gap <= 0:
+                self._cur = (1, self._bytes.pop(0))
+                self._gap = rng.randint(10, 24)     # as on a serial line: bytes are far apart in PHY cycles
+                if not self._bytes:
+                    self._gap = 260                 # let the command finish (read answers take their time)
+            else:
+                self._cur = (0, self._cur[1])
+                self._gap -= 1
+            self._take = 1 if rng.random() < 0.7 else 0
+        if ts:
+            self._datr = rng.getrandbits(32)
+        return letter
+
+    def monitor(self):
+        return UartBoneMonitor()
+
+
+class UartBoneMonitor:
+    """End-to-end oracle, independent of any model: the bytes the PHY received (in the PHY clock domain) are parsed
+    into UARTBone commands; the Wishbone operations seen on the sys side must be exactly these, in order, and the
+    bytes handed to the PHY for transmission must be exactly the big-endian read data, in order — nothing lost,
+    duplicated, reordered or altered by the two crossings.  A completed command must have been executed 200 edges
+    of each clock later."""
+    def __init__(self):
+        self.rx = []            # bytes of the command being received
+        self.ops = []           # expected wishbone operations (we, adr, dat or None)
+        self.tx = []            # expected tx bytes
+        self.idle = [0, 0]      # edges of each clock since the expectation queues last changed
+
+    def _parse(self):
+        """streaming: a write is issued word by word as soon as its four data bytes are in"""
+        from litex.soc.cores import uart
+        b = self.rx
+        if len(b) < 6:
+            return
+        cmd, n = b[0], b[1]
+        adr = int.from_bytes(bytes(b[2:6]), "big")
+        incr = cmd in (uart.CMD_WRITE_BURST_INCR, uart.CMD_READ_BURST_INCR)
+        if cmd in (uart.CMD_WRITE_BURST_INCR, uart.CMD_WRITE_BURST_FIXED):
+            if len(b) > 6 and (len(b) - 6) % 4 == 0:
+                i = (len(b) - 6) // 4 - 1
+                self.ops.append((1, (adr + (i if incr else 0)) & 0xffffffff,
+                                 int.from_bytes(bytes(b[6 + 4 * i:10 + 4 * i]), "big")))
+                self.idle = [0, 0]
+                if i == n - 1:
+                    self.rx = []
+        elif len(b) == 6:
+            for i in range(n):
+                self.ops.append((0, (adr + (i if incr else 0)) & 0xffffffff, None))
+            self.rx = []
+            self.idle = [0, 0]
+
+    def observe(self, letter, outs):
+        ts, tc, mask, rxv, rxd, take, datr = letter
+        stb, we, adr, datw, txv, txd = outs
+        msg = None
+        if ts and stb:
+            if not self.ops:
+                msg = "wishbone %s of address 0x%x although no command is pending (byte duplicated or invented)" % (
+                    "write" if we else "read", adr)
+            else:
+                e = self.ops.pop(0)
+                got = (we, adr, datw if we else None)
+                if got != e:
+                    msg = "wishbone operation %r, the received bytes ask for %r (byte lost/duplicated/altered)" % (got, e)
+                elif not we:
+                    self.tx += [(datr >> (8 * i)) & 0xff for i in (3, 2, 1, 0)]
+            self.idle = [0, 0]
+        if msg is None and tc and txv:
+            if not self.tx:
+                msg = "byte 0x%02x transmitted although no read data is pending" % txd
+            elif self.tx[0] != txd:
+                msg = "transmitted byte 0x%02x, expected 0x%02x (read data lost/duplicated/reordered)" % (txd, self.tx[0])
+            else:
+                self.tx.pop(0)
+            self.idle = [0, 0]
+        if tc and rxv:
+            self.rx.append(rxd)
+            self._parse()
+            self.idle = [0, 0]
+        if ts:
+            self.idle[0] += 1
+        if tc:
+            self.idle[1] += 1
+        if msg is None and (self.ops or self.tx) and not self.rx and min(self.idle) > 200:
+            msg = "command received completely but not executed after 200 edges of each clock (%d operations, %d " \
+                  "answer bytes outstanding): a byte was lost in a crossing" % (len(self.ops), len(self.tx))
+        return msg
